@@ -92,6 +92,12 @@ def run(replay=None):
                         if kk.tc in ('f32', 'f64'):
                             a = r.choice([0.0, -0.0, 1.0, 0.5, -2.5, 1e-40 if kk.tc == 'f32' else 5e-320])
                             b = a + r.choice([0.0, 1.0, 2.5, 3.0]) if j != 3 else a - 1.0
+                            # half-open and unbounded boxes: an infinite bound is a bound like any other, and a coordinate
+                            # EQUAL to it lies inside the closed box
+                            if not sizes and r.below(3) == 0:
+                                a = float('-inf')
+                            if not sizes and r.below(3) == 0:
+                                b = float('inf')
                             lo.append(sc.fbits(kk.tc, a))
                             hi.append(sc.fbits(kk.tc, min(b, e - 1.0) if sizes else b))
                         else:
